@@ -96,6 +96,7 @@ func (b *blockChecker) absorb(fs []rt.Frame) string {
 func TestC18(t *testing.T) {
 	r := vf.Begin(t, "C18")
 	defer r.End()
+	defer perturbReport(r)
 	r.Describe("PRNG sequences of 1-8 SETTINGS frames (any subset of the six parameters, repeated ids inside a frame, unknown ids, boundary values) interleaved with traffic, in both roles (synctest bubbles). Server role: requests whose responses carry header lists from a few bytes to 200 KiB and bodies straddling every advertised frame size; "+
 		"client role: requests with header lists up to 200 KiB and bodies around the frame sizes, more callers than the server's MAX_CONCURRENT_STREAMS. Monitors: at every quiescent point the number of ACKs equals the number of SETTINGS sent; from the ACK on no frame (HEADERS and CONTINUATION included) exceeds the peer's MAX_FRAME_SIZE; streams concurrently open as counted by the scripted server never exceed its MAX_CONCURRENT_STREAMS; "+
 		"every header block decodes under a strict reference decoder whose allowed table size follows the peer's HEADER_TABLE_SIZE (and which demands the size update after a reduction); a parameter absent from a later frame keeps its value; the endpoint enforces what it advertises itself (one byte over its MAX_FRAME_SIZE is refused, stream MaxConcurrentStreams+1 is refused, header lists over the limit are refused, the client has sent ENABLE_PUSH=0 and tears down on PUSH_PROMISE); invalid values end the connection (server: GOAWAY with the RFC's code; client: no further HEADERS, callers get errors). "+
